@@ -129,6 +129,18 @@ CLAIMED = {
                      "assignment, key-term equality",
         "design_ref": "DESIGN.md section 3, C10",
     },
+    "C11": {
+        "text": "Decides structural clauses D1-D4 of C11: every member of the three version enums is dispatched by its factory with a "
+                "returned instance on each branch and a raising fall-through; the two support-point weights of a Romberg / "
+                "trapezoidal slice add up to the slice width and one extrapolation step uses coefficients adding up to 1 (also for "
+                "points missing in the finer table), both as polynomial identities independent of spelling; the Romberg weight cache "
+                "is keyed by points and levels, its other inputs are init-only, and store/lookup use the same key; the tree "
+                "completion adds only the missing side at the mirror point over a snapshot of the nodes. Exactness to order 2m+1 etc. "
+                "is numerical and NOT decided.",
+        "technique": "exhaustiveness of enum dispatch + return-on-all-paths, polynomial identity checking, cache-key coverage with "
+                     "init-only ownership, complementary-branch checks",
+        "design_ref": "DESIGN.md section 3, C11",
+    },
     "C13": {
         "text": "Decides structural clauses D1-D5 of C13 on the driver loop and the error estimators: exactly one history entry per "
                 "evaluation before any stop test; the two documented stop conditions as normalised relations between the error and "
